@@ -133,7 +133,7 @@ def main(argv):
               assumptions=['declarations are enumerated (bounded over programs), inputs and values unbounded',
                            'fixed Data values have exactly the declared length (struct pads/truncates, the generic loop does not)',
                            'nothing is stored at or after the cursor when pack_impl starts (collisions are C11/C12)',
-                           'on failure only the exception class and phase flag are compared (the located entry may be the run of fixed fields)'],
+                           'on failure the exception class, the phase flag and the stack of (offset, name, class) entries are compared (the newest entry may name the run of fixed fields containing the failing field, with the offset where the run begins); the message text is not compared'],
               wall_s=round(time.time() - t0, 1), violations=len(violations))
     os.makedirs(os.path.join(OUT, 'evidence'), exist_ok=True)
     json.dump(ev, open(os.path.join(OUT, 'evidence', pid + '.json'), 'w'), indent=1)
